@@ -28,6 +28,8 @@ namespace
             o.basins = g.basins();
             o.outlets = g.outlets();
             o.pits = g.pits();
+            std::sort(o.outlets.begin(), o.outlets.end());  // sets
+            std::sort(o.pits.begin(), o.pits.end());
         }
         return o;
     }
